@@ -110,7 +110,15 @@ def code_region(lines):
             i = j + 1
             continue
         s = l.strip()
-        if s and not s.startswith("//") and not s.startswith("#[") and not s.startswith("use ") and not s.startswith("pub use "):
+        # block comments: lines from "/*" to "*/" are not code
+        if "/*" in s and "*/" not in s.split("/*", 1)[1]:
+            while i < n and "*/" not in lines[i].split("/*", 1)[-1 if "/*" in lines[i] else 0]:
+                i += 1
+                if i < n and "*/" in lines[i]:
+                    break
+            i += 1
+            continue
+        if s and not s.startswith("//") and not s.startswith("*") and not s.startswith("#[") and not s.startswith("use ") and not s.startswith("pub use "):
             out.append(i)
         i += 1
     return out
